@@ -29,8 +29,8 @@ Proof.
   destruct (IH d) as (pre & dl & E). exists (d0 :: pre), dl. rewrite E. reflexivity.
 Qed.
 
-(* the command list of a non-empty program is: something, the last declaration's commands, one more NL *)
-Lemma program_cmds_last : forall ds d0, exists pre dl, List.In dl (d0 :: ds) /\ program_cmds (d0 :: ds) = pre ++ d_cmds dl ++ [NL].
+(* the command list of a non-empty program is: something, then the last declaration's commands *)
+Lemma program_cmds_last : forall ds d0, exists pre dl, List.In dl (d0 :: ds) /\ program_cmds (d0 :: ds) = pre ++ d_cmds dl.
 Proof.
   intros ds d0. cbn [program_cmds].
   assert (G : forall ds pd, ds <> [] -> exists pre dl, List.In dl ds /\ program_cmds_from pd ds = pre ++ d_cmds dl).
@@ -41,20 +41,47 @@ Proof.
       exists ((if pd then [NL] else [NL; NL]) ++ d_cmds d ++ pre), dl. split; [right; exact Hin|].
       cbn [program_cmds_from] in *. rewrite E. rewrite <- !app_assoc. reflexivity. }
   destruct ds as [|d1 ds1].
-  - exists [], d0. split; [left; reflexivity|]. reflexivity.
+  - exists [], d0. split; [left; reflexivity|]. cbn [program_cmds_from]. rewrite app_nil_r. reflexivity.
   - destruct (G (d1 :: ds1) (d_doc d0) ltac:(discriminate)) as (pre & dl & Hin & E).
     exists (d_cmds d0 ++ pre), dl. split; [right; exact Hin|]. rewrite E. rewrite <- !app_assoc. reflexivity.
 Qed.
 
-Lemma final_two_newlines : forall ds d0, (forall d, List.In d (d0 :: ds) -> ends_line d) ->
-  ends_with (fmt_text (d0 :: ds)) [10; 10].
+(* the untrimmed output of a non-empty program ends in a newline *)
+Lemma raw_ends_newline : forall ds d0, (forall d, List.In d (d0 :: ds) -> ends_line d) ->
+  exists t, raw_text (d0 :: ds) = t ++ [10].
 Proof.
-  intros ds d0 H. unfold fmt_text.
-  destruct (program_cmds_last ds d0) as (pre & dl & Hin & E). rewrite E.
-  rewrite run_app, run_app.
-  destruct (run_ends_line dl (run w0 pre) (H dl Hin)) as (t & Ho & _).
-  cbn [run fold_left step out]. rewrite Ho. exists t. rewrite <- app_assoc. reflexivity.
+  intros ds d0 H. unfold raw_text.
+  destruct (program_cmds_last ds d0) as (pre & dl & Hin & E). rewrite E, run_app.
+  destruct (run_ends_line dl (run w0 pre) (H dl Hin)) as (t & Ho & _). exists t. exact Ho.
 Qed.
+
+(* trimming: a text that ends in a newline and has some other character ends in exactly one newline afterwards *)
+Lemma strip_ok : forall r, (exists r', r = 10 :: r') -> (exists c, List.In c r /\ c <> 10) ->
+  exists c rest, strip r = 10 :: c :: rest /\ c <> 10.
+Proof.
+  induction r as [|a r IH]; intros [r' E] [c [Hin Hc]]; [discriminate|].
+  inversion E; subst a r'. cbn [strip]. cbn [Z.eqb Pos.eqb andb].
+  destruct r as [|b r0].
+  - exfalso. destruct Hin as [<-|[]]. apply Hc; reflexivity.
+  - destruct (b =? 10) eqn:Eb.
+    + apply Z.eqb_eq in Eb. subst b. apply IH; [eexists; reflexivity|].
+      exists c. split; [|exact Hc]. destruct Hin as [<-|Hin]; [exfalso; apply Hc; reflexivity|exact Hin].
+    + apply Z.eqb_neq in Eb. exists b, r0. split; [reflexivity|exact Eb].
+Qed.
+
+Lemma trim_ends_one : forall t, (exists t', t = t' ++ [10]) -> (exists c, List.In c t /\ c <> 10) -> ends_one (trim t).
+Proof.
+  intros t [t' E] [c [Hin Hc]]. unfold trim.
+  destruct (strip_ok (rev t)) as (c0 & rest & Es & Hc0).
+  - subst t. rewrite rev_app_distr. eexists; reflexivity.
+  - exists c. split; [apply in_rev in Hin; exact Hin | exact Hc].
+  - rewrite Es. cbn [rev]. exists (rev rest), c0. split; [rewrite <- app_assoc; reflexivity | exact Hc0].
+Qed.
+
+Lemma final_one_newline : forall ds d0, (forall d, List.In d (d0 :: ds) -> ends_line d) ->
+  (exists c, List.In c (raw_text (d0 :: ds)) /\ c <> 10) ->
+  ends_one (fmt_text (d0 :: ds)).
+Proof. intros ds d0 H Hc. unfold fmt_text. apply trim_ends_one; [apply raw_ends_newline; exact H | exact Hc]. Qed.
 
 (* ---- format_files ---- *)
 Lemma check_readonly : forall d fs, forallb negb (writes (format_files {| check := true; diff := d |} fs)) = true.
